@@ -1,10 +1,22 @@
 (** Correspondence + property checker for C12 (marker access rights, authz transfer grants).
 
-    Three kinds of cases, all observed on the real message router / keepers:
+    The kinds of cases, all observed on the real message router / keepers:
       CAccess    one administration endpoint on one configuration: did it succeed, marker status after
       CTransfer  one MsgTransferRequest: did it succeed, balance deltas, the stored grant afterwards
       CSeq       a sequence of uses of ONE MarkerTransferAuthorization, with the observation after
                  each use (success, balance deltas, the grant the authz Grants query returns)
+      CSeqT      a history of one grant WITH block time: uses (partial, exhausting, over-use), the
+                 block time moving past the expiration, re-grants (MsgGrant), revocation; after
+                 each step the stored grant INCLUDING its expiration
+      CWithdraw  one MsgWithdrawRequest with its recipient (plain, blocked, a second marker of
+                 either type in every status, caller with / without DEPOSIT on it)
+      CHist      a history of calls on TWO markers: AddAccess / DeleteAccess (and the governance
+                 Set- / RemoveAdministrator) interleaved with every other endpoint; after each call
+                 both markers' status, manager and access list
+      CCreate    AddFinalizeActivateMarker on a fresh / an existing denom
+      CGovParams UpdateParams by the governance account / anybody else
+      CAllowance whose fee allowance an accepted GrantAllowance created
+      CCoverage  which endpoints the run exercised (every operation of [all_ops] must be there)
 
     "corr:*"  the model (Marker/Access.v, Marker/Authz.v) and the implementation disagree;
     "prop:*"  the implementation's own observation breaks the property: a call succeeded for a
@@ -12,7 +24,7 @@
               grant or an admissible forced transfer, the total moved under a grant exceeds the
               original limit, or a recipient is not on the original allow list. *)
 From Coq Require Import ZArith NArith List String Bool.
-From PV Require Export Marker.Access Marker.Authz Corr.CorrBase.
+From PV Require Export Marker.Access Marker.Authz Marker.AuthzSeq Marker.AccessHist Marker.AccessTable Corr.CorrBase.
 Import ListNotations.
 Open Scope string_scope.
 Open Scope list_scope.
@@ -34,12 +46,32 @@ Record life_obs := {
   lo_manager : bool        (* marker.Manager is non-empty afterwards *)
 }.
 
+(** One step of a timed grant history. *)
+Record tstep_obs := {
+  to_op : sop;
+  to_ok : bool;
+  to_to_delta : Z;
+  to_from_delta : Z;
+  to_grant : option tgrant       (* Grants query afterwards: authorization and expiration *)
+}.
+
+(** One call of a two-marker history: both markers as stored afterwards (status, manager, access
+    list are compared; the other fields repeat what the harness knows). *)
+Record hstep_obs := { hs_op : hop; hs_ok : bool; hs_a : mk; hs_b : mk }.
+
 Inductive case :=
 | CLife (init : life) (steps : list life_obs)
 | CAccess (c : cfg) (o : op) (ok : bool) (after : status)
 | CTransfer (x : xfer) (module_or_contract : bool) (ok : bool) (to_delta from_delta : Z)
             (grant_after : option grant)
-| CSeq (via_exec : bool) (g0 : grant) (bal0 : coins) (steps : list step_obs).
+| CSeq (via_exec : bool) (g0 : grant) (bal0 : coins) (steps : list step_obs)
+| CSeqT (r : route) (g0 : grant) (e0 : option Z) (bal0 : coins) (now0 : Z) (steps : list tstep_obs)
+| CWithdraw (c : cfg) (d : dest) (ok : bool) (moved : Z)
+| CHist (s0 : hstate) (steps : list hstep_obs)
+| CCreate (exists_already : bool) (caller_rights_on_existing : N) (ok : bool) (after : status) (manager_after : bool)
+| CGovParams (is_gov ok : bool)
+| CAllowance (of_marker_account of_administrator : bool)
+| CCoverage (ops : list op).
 
 (** Coins are compared as maps. *)
 Definition coins_eqb (a b : coins) : bool :=
@@ -174,12 +206,204 @@ Fixpoint life_prop (i : N) (activated : bool) (steps : list life_obs) : list str
       end
   end.
 
+
+(** *** a timed history of one grant *)
+Definition oz_eqb := opt_eqb Z.eqb.
+Definition tgrant_eqb (a b : tgrant) : bool := grant_eqb (tg_grant a) (tg_grant b) && oz_eqb (tg_exp a) (tg_exp b).
+Definition otgrant_eqb := opt_eqb tgrant_eqb.
+
+Definition sop_is_use (o : sop) : bool := match o with SUse _ _ _ => true | _ => false end.
+
+Fixpoint seqt_corr (r : route) (i : N) (s : tstate) (steps : list tstep_obs) : list string :=
+  match steps with
+  | [] => []
+  | o :: rest =>
+      let '(s', res) := sstep r s (to_op o) in
+      let ok := match res with URefused => false | _ => true end in
+      let amt := match to_op o with SUse m _ _ => if ok then m_amt m else 0 | _ => 0 end in
+      let tags :=
+        tag (Bool.eqb (to_ok o) ok) "corr:timed_step_accepted" ++
+        tag (otgrant_eqb (to_grant o) (ts_grant s')) "corr:timed_stored_grant" ++
+        tag (Z.eqb (to_to_delta o) amt && Z.eqb (to_from_delta o) amt) "corr:timed_use_balances" in
+      match tags with
+      | [] => seqt_corr r (N.succ i) s' rest
+      | e => map (fun t => (t ++ " @step " ++ N_to_string i)%string) e
+      end
+  end.
+
+(** Whether everything the issue allows has been used, in every denom it names. *)
+Definition issue_exhausted (i : issue) (used : coins) : bool :=
+  forallb (fun x => Z.eqb (amount_of (fst x) used) (amount_of (fst x) (g_limit (is_grant i)))) (g_limit (is_grant i)).
+
+(** What has to be stored after a use under issue [i] with [used] consumed: nothing when the issue
+    is exhausted, otherwise the issue's limit less [used], its allow list, its expiration. *)
+Definition stored_after_use_tags (i : issue) (used : coins) (after : option tgrant) : list string :=
+  match after with
+  | None => tag (issue_exhausted i used) "prop:grant_deleted_before_it_was_exhausted"
+  | Some tg =>
+      tag (negb (issue_exhausted i used)) "prop:exhausted_grant_not_deleted" ++
+      tag (forallb (fun d => Z.eqb (amount_of d (g_limit (tg_grant tg)))
+                                   (amount_of d (g_limit (is_grant i)) - amount_of d used))
+                   (map fst (g_limit (is_grant i)) ++ map fst (g_limit (tg_grant tg))))
+          "prop:grant_not_reduced_by_the_use" ++
+      tag (list_eqb N.eqb (g_allow (tg_grant tg)) (g_allow (is_grant i))) "prop:use_changed_the_allow_list" ++
+      tag (oz_eqb (tg_exp tg) (is_exp i)) "prop:use_changed_the_grant_expiration"
+  end.
+
+(** The property on the observations alone.  [prev] is the stored grant observed before the step. *)
+Fixpoint seqt_prop (r : route) (n : N) (i : issue) (used : coins) (now : Z) (prev : option tgrant)
+                   (steps : list tstep_obs) : list string :=
+  match steps with
+  | [] => []
+  | o :: rest =>
+      let moved := to_ok o || negb (Z.eqb (to_to_delta o) 0) in
+      let '(i', used', now', tags) :=
+        match to_op o with
+        | SUse m rights forced =>
+            let by_force := match r with ViaKeeper => forced && has RForceTransfer rights | ViaExec => false end in
+            if moved && negb by_force then
+              let used' := add_amt (m_denom m) (to_to_delta o) used in
+              (i, used', now,
+               tag (match prev with Some _ => true | None => false end) "prop:third_party_transfer_without_grant" ++
+               tag (negb (expired (is_exp i) now)) "prop:transfer_under_expired_grant" ++
+               tag (is_nil (g_allow (is_grant i)) || mem (m_to m) (g_allow (is_grant i))) "prop:recipient_not_on_allow_list" ++
+               tag (Z.leb (amount_of (m_denom m) used') (amount_of (m_denom m) (g_limit (is_grant i))))
+                   "prop:total_moved_exceeds_granted_limit" ++
+               stored_after_use_tags i used' (to_grant o))
+            else
+              (i, used, now,
+               if moved then tag (otgrant_eqb (to_grant o) prev) "prop:forced_transfer_touched_the_grant" else [])
+        | SGrant g e =>
+            if to_ok o then
+              ({| is_grant := g; is_exp := e |}, [], now,
+               tag (otgrant_eqb (to_grant o) (Some {| tg_grant := g; tg_exp := e |})) "prop:regrant_does_not_replace_the_stored_grant")
+            else (i, used, now, [])
+        | SRevoke => (i, used, now, if to_ok o then tag (match to_grant o with None => true | Some _ => false end) "prop:revoked_grant_still_stored" else [])
+        | STick dt => (i, used, now + Z.max 0 dt, [])
+        end in
+      match tags with
+      | [] => seqt_prop r (N.succ n) i' used' now' (to_grant o) rest
+      | e => map (fun t => (t ++ " @step " ++ N_to_string n)%string) e
+      end
+  end.
+
+Definition check_seqt (r : route) (g0 : grant) (e0 : option Z) (bal0 : coins) (now0 : Z) (steps : list tstep_obs) : list string :=
+  let tg0 := {| tg_grant := g0; tg_exp := e0 |} in
+  tag (grant_valid g0) "corr:initial_grant_not_valid" ++
+  seqt_corr r 0%N {| ts_grant := Some tg0; ts_bal := bal0; ts_now := now0 |} steps ++
+  seqt_prop r 0%N {| is_grant := g0; is_exp := e0 |} [] now0 (Some tg0) steps.
+
+(** *** a withdrawal with its recipient *)
+Definition check_withdraw (c : cfg) (d : dest) (ok : bool) (moved : Z) : list string :=
+  tag (Bool.eqb ok (withdraw_to c d)) "corr:withdraw_decision" ++
+  (if ok || negb (Z.eqb moved 0) then
+     tag (has RWithdraw (c_rights c)) "prop:withdraw_without_withdraw_right" ++
+     tag (dest_marker_ok d) "prop:deposit_into_restricted_marker_without_deposit_right"
+   else []).
+
+(** *** a history of calls on two markers *)
+Definition access_eqb (a b : list (addr * N)) : bool :=
+  forallb (fun x => N.eqb (rights_of x a) (rights_of x b)) (map fst a ++ map fst b).
+Definition oaddr_eq (a b : option addr) : bool := opt_eqb N.eqb a b.
+Definition mk_same (a b : mk) : bool :=
+  status_eqb (mk_status a) (mk_status b) && oaddr_eq (mk_manager a) (mk_manager b) &&
+  access_eqb (mk_access a) (mk_access b).
+
+Fixpoint hist_corr (i : N) (s : hstate) (steps : list hstep_obs) : list string :=
+  match steps with
+  | [] => []
+  | o :: r =>
+      let '(s', out) := hstep s (hs_op o) in
+      let tags :=
+        tag (Bool.eqb (hs_ok o) (match out with Denied => false | _ => true end)) "corr:history_call_decision" ++
+        tag (mk_same (hs_a o) (h_a s') && mk_same (hs_b o) (h_b s')) "corr:history_marker_state" in
+      match tags with
+      | [] => hist_corr (N.succ i) s' r
+      | e => map (fun t => (t ++ " @step " ++ N_to_string i)%string) e
+      end
+  end.
+
+(** On the observations alone: [pa], [pb] are the markers as observed before the call; whether a
+    marker has ever been active is accumulated from the observed statuses. *)
+Definition obs_mk (m : mk) (activated : bool) : mk :=
+  {| mk_status := mk_status m; mk_type := mk_type m; mk_manager := mk_manager m; mk_access := mk_access m;
+     mk_govctl := mk_govctl m; mk_activated := activated |}.
+
+Fixpoint hist_prop (i : N) (pa pb : mk) (steps : list hstep_obs) : list string :=
+  match steps with
+  | [] => []
+  | o :: r =>
+      let op := hs_op o in
+      let w := ho_on op in
+      let before := match w with MA => pa | MB => pb end in
+      let after := match w with MA => hs_a o | MB => hs_b o end in
+      let other_before := match w with MA => pb | MB => pa end in
+      let other_after := match w with MA => hs_b o | MB => hs_a o end in
+      let c := cfg_of before (ho_caller op) (ho_env op) in
+      let tags :=
+        tag (mk_same other_before other_after) "prop:call_changed_the_other_marker" ++
+        (if hs_ok o then
+           (if op_is_cancel (ho_op op) && status_eqb (mk_status before) SCancelled then
+              tag (mk_same before after) "prop:cancel_of_cancelled_marker_changed_it"
+            else
+              tag (req_met c (documented (ho_op op) (mk_status before) (mk_type before)))
+                  "prop:succeeded_without_documented_right") ++
+           (match ho_op op with
+            | ODeleteAccess | ORemoveAdministrator =>
+                tag (N.eqb (rights_of (ho_target op) (mk_access after)) 0) "prop:revoked_rights_still_listed"
+            | OAddAccess | OSetAdministrator =>
+                tag (N.eqb (N.land (rights_of (ho_target op) (mk_access after)) (ho_mask op)) (ho_mask op))
+                    "prop:granted_rights_not_listed"
+            | _ => []
+            end)
+         else tag (mk_same before after) "prop:refused_call_changed_the_marker") in
+      match tags with
+      | [] =>
+          let pa' := obs_mk (hs_a o) (mk_activated pa || is_active (mk_status (hs_a o))) in
+          let pb' := obs_mk (hs_b o) (mk_activated pb || is_active (mk_status (hs_b o))) in
+          hist_prop (N.succ i) pa' pb' r
+      | e => map (fun t => (t ++ " @step " ++ N_to_string i)%string) e
+      end
+  end.
+
+Definition check_hist (s0 : hstate) (steps : list hstep_obs) : list string :=
+  tag (hwfb s0) "corr:history_start_not_well_formed" ++
+  hist_corr 0%N s0 steps ++ hist_prop 0%N (h_a s0) (h_b s0) steps.
+
+(** *** creation, module parameters, coverage *)
+Definition check_create (ex : bool) (rs : N) (ok : bool) (after : status) (mgr : bool) : list string :=
+  tag (Bool.eqb ok (negb ex)) "corr:create_decision" ++
+  (if ok then
+     tag (negb ex) "prop:existing_marker_replaced_by_a_new_one" ++
+     tag (status_eqb after SActive && negb mgr) "prop:manager_survived_activation"
+   else []).
+
+Definition check_gov_params (is_gov ok : bool) : list string :=
+  tag (Bool.eqb ok is_gov) "corr:update_params_decision" ++
+  (if ok then tag is_gov "prop:module_params_changed_by_a_non_governance_caller" else []).
+
+(** After an accepted GrantAllowance the allowance is the MARKER account's (fees of the grantee are
+    paid out of the marker), not the administrator's. *)
+Definition check_allowance (of_marker of_admin : bool) : list string :=
+  tag of_marker "corr:allowance_not_granted_by_the_marker_account" ++
+  tag (negb of_admin) "corr:allowance_granted_by_the_administrator_account".
+
+Definition check_coverage (ops : list op) : list string :=
+  tag (forallb (fun o => existsb (op_eqb o) ops) all_ops) "corr:endpoint_of_the_table_not_exercised".
+
 Definition check (c : case) : list string :=
   match c with
   | CLife init steps => life_corr 0%N init steps ++ life_prop 0%N (l_activated init) steps
   | CAccess c o ok after => check_access c o ok after
   | CTransfer x modc ok dto dfrom ga => check_transfer x modc ok dto dfrom ga
   | CSeq _ g0 bal0 steps => check_seq g0 bal0 steps
+  | CSeqT r g0 e0 bal0 now0 steps => check_seqt r g0 e0 bal0 now0 steps
+  | CWithdraw c d ok moved => check_withdraw c d ok moved
+  | CHist s0 steps => check_hist s0 steps
+  | CCreate ex rs ok after mgr => check_create ex rs ok after mgr
+  | CGovParams g ok => check_gov_params g ok
+  | CAllowance m a => check_allowance m a
+  | CCoverage ops => check_coverage ops
   end.
 
 Definition check_all := check_list check.
